@@ -1039,6 +1039,8 @@ class PDFDocument:
         xrefs: List[PDFBaseXRef],
     ) -> None:
         """Reads XRefs from the given location."""
+        if start < 0:
+            raise PDFNoValidXRef("Negative offset of a cross-reference section")
         parser.seek(start)
         parser.reset()
         try:
